@@ -148,6 +148,16 @@ theorem C15_files_independent (pps : List PP) (ss : List Nat) (files : List (Lis
     rw [ih _ hl]
     simp [genFile, output, pipeLinesSt_fst, hr]
 
+/-- T7: a raw (non-template) support file copied through line processors
+(`SupportGenerator._copy_header_using_line_pps`: reset, then the file's lines — however the file object cuts
+them — through the same line buffer) is the processors applied line by line to the file's text. -/
+theorem C15_copy_is_linewise (pps : List PP) (ss : List Nat) (lines : List Str) (text : Str)
+    (h : lines.flatten = text) (hl : ss.length = pps.length) :
+    genFiles pps ss [lines] =
+      [write (pipeLines pps (List.replicate pps.length 0) (specLines text))] := by
+  rw [C15_files_independent pps ss [lines] hl]
+  simp [C15_output_is_linewise, h]
+
 /-! ### The defect repaired by the `fix:` commit (kept as a regression witness)
 
 Before the fix the generator loop had no carry for a `\r` that ends a chunk: the chunking
